@@ -314,6 +314,25 @@ def h_misc(ctx, what):
     src.raiseEvent(w.E1); src.raiseEvent(w.E2())
     ctx.check('a handler unsubscribed by reference is not invoked for any event type', calls == ['other1', 'other2'])
     ctx.check('listener count', src._eventMixin_get_listener_count() == 2)
+  elif what == 'remove_weak_by_reference':
+    # a *weak* subscription (three forms) unsubscribed by naming the handler - with or without the event type (solver-chosen): gone, the other
+    # handler of the same owner and the strong handlers stay
+    calls = []
+    class Owner:
+      def h(self, e): calls.append('weak')
+      def k(self, e): calls.append('weak2')
+    o = Owner()
+    form = int(ctx.int('form', 0, 2)); typed = bool(ctx.bool('with_type'))
+    if form == 0: src.addListener(w.E1, o.h, weak=True)
+    elif form == 1: src.addListenerByName('E1', o.h, weak=True)
+    else: src.add_listener(o.h, event_type=w.E1, weak=True)
+    src.addListener(w.E1, o.k, weak=True); src.addListener(w.E1, lambda e: calls.append('strong'))
+    r = src.removeListener(o.h, w.E1) if typed else src.removeListener(o.h)
+    ctx.check('removeListener(handler) of a weak subscription reports a removal', r is True)
+    src.raiseEvent(w.E1)
+    ctx.check('the weak handler unsubscribed by reference is gone, the others stay', calls == ['weak2', 'strong'])
+    ctx.check('listener count', src._eventMixin_get_listener_count() == 2)
+    del o
   elif what == 'bulk_remove':
     # removeListeners(list of ids): every listed subscription is gone afterwards, whichever of them are still live (solver-chosen subset was
     # already removed one by one), the others stay; the result says whether anything was removed
@@ -386,6 +405,6 @@ def obligations(tier):
   return [
     Obligation('O1_histories', h_history, [dict(plan=p, behs=behs) for p in plans] + ([dict(plan=p, behs=BEH_NESTED) for p in ('SSR', 'SSSR', 'SSRR', 'SSN')] if not thorough else []), witnesses=('done',), max_decisions=20000,
                desc='invocation log == reference dispatcher over symbolic histories'),
-    Obligation('O2_misc', h_misc, [dict(what=x) for x in ('undeclared', 'weak', 'weak_during', 'noerrors_kinds', 'bulk_remove', 'remove_by_reference', 'weak_control', 'autobind')], witnesses=('done',),
+    Obligation('O2_misc', h_misc, [dict(what=x) for x in ('undeclared', 'weak', 'weak_during', 'noerrors_kinds', 'bulk_remove', 'remove_by_reference', 'remove_weak_by_reference', 'weak_control', 'autobind')], witnesses=('done',),
                desc='undeclared types rejected; weak handlers; autoBindEvents/removeListeners'),
   ]
